@@ -62,7 +62,7 @@ def main():
             mod.replay(chk, json.load(open(a.replay)))
         else:
             mod.run(chk)
-        rc = common.finish(chk, getattr(mod, "classify", None), write_evidence=not a.replay)
+        rc = common.finish(chk, getattr(mod, "classify", None), write_evidence=(not a.replay) and not os.environ.get("VERIF_NO_EVIDENCE"))
     except Exception:
         traceback.print_exc()
         chk.oblige("check machinery ran to completion", False, traceback.format_exc()[-1500:])
